@@ -2,6 +2,7 @@ import KoordVerif.Proofs.C16Evict
 import KoordVerif.Model.C16Arb
 import KoordVerif.Proofs.C16ExtArb
 import KoordVerif.Proofs.C16Ext2Cycle
+import KoordVerif.Proofs.C16Ext2Dim
 /-
 C16 — descheduler disruption budgets are never exceeded, even with concurrent evictors.
 
@@ -381,6 +382,51 @@ example :
     let st : ArbSt := { pods := [⟨1, 1, 1, 1, true, false, false, 0⟩, ⟨2, 1, 1, 1, true, false, false, 0⟩],
                         jobs := [⟨1, 1, 1, 0, false, 1⟩, ⟨2, 2, 1, 0, false, 2⟩], waiting := [1, 2] }
     (round cfg [] st [1, 2]).arbitrated = [1] ∧ (round cfg [] st [1, 2]).waiting = [2] := by decide
+
+/-- **round_inv_dim**: `round_inv` with the exempt admissions charged per dimension (what the Go oracle checks): after a
+    round each counter is at most max(limit, its value before) + the number of exempt admissions of the round THAT LIE
+    IN THE SAME DIMENSION — for namespace `k` those whose PodRef is in `k` (`exNs`), for node `n` those referring (by UID
+    or namespace/name) to a pod on `n` (`exNode`), for workload `wl` in namespace `k` those naming a pod of `wl` through
+    a PodRef in `k` (`exWl`).  An exempt admission elsewhere does not move the counter.  (The global clause of
+    `round_inv` is already of this form.) -/
+theorem round_inv_dim (cfg : ArbCfg) (uf : List Nat) (st : ArbSt) (order : List Nat) (w : WF st) :
+    let st' := round cfg uf st order
+    (∀ n, n ≠ 0 → gateSkipped cfg 3 = false → 0 < cfg.maxNode →
+      cntNode st' n ≤ max cfg.maxNode.toNat (cntNode st n) + roundEx (exNode cfg uf n) cfg uf st order) ∧
+    (∀ k, gateSkipped cfg 4 = false → 0 < cfg.maxNs →
+      cntNs st' k ≤ max cfg.maxNs.toNat (cntNs st k) + roundEx (exNs cfg uf k) cfg uf st order) ∧
+    (∀ wl k, wl ≠ 0 → gateSkipped cfg 2 = false →
+      cntMigr st' wl k ≤ max (max (wlLimit cfg wl cfg.mmKind cfg.maxMigr) 1) (cntMigr st wl k) +
+        roundEx (exWl cfg uf wl k) cfg uf st order) ∧
+    (∀ wl k, wl ≠ 0 → gateSkipped cfg 1 = false →
+      cntUnav st' wl k ≤ max (wlLimit cfg wl cfg.muKind cfg.maxUnav) (cntUnav st wl k) +
+        roundEx (exWl cfg uf wl k) cfg uf st order) := by
+  refine ⟨fun n hn hs hl => ?_, fun k hs hl => ?_, fun wl k hw hs => ?_, fun wl k hw hs => ?_⟩
+  · exact fold_bound_ex cfg uf (cntNode · n) _ _ (fun s j ws => step_node_dim cfg uf s j ws n hn hs hl) order st w
+  · exact fold_bound_ex cfg uf (cntNs · k) _ _ (fun s j ws => step_ns_dim cfg uf s j ws k hs hl) order st w
+  · exact fold_bound_ex cfg uf (cntMigr · wl k) _ _ (fun s j ws => step_migr_dim cfg uf s j ws wl k hw hs) order st w
+  · exact fold_bound_ex cfg uf (cntUnav · wl k) _ _ (fun s j ws => step_unav_dim cfg uf s j ws wl k hw hs) order st w
+
+/-- the per-dimension exempt counts are at most the round's total (so `round_inv_dim` implies `round_inv`) -/
+theorem round_exempt_dim_le (cfg : ArbCfg) (uf : List Nat) (st : ArbSt) (order : List Nat) (n k wl : Nat) :
+    roundEx (exNode cfg uf n) cfg uf st order ≤ roundExempt cfg uf st order ∧
+    roundEx (exNs cfg uf k) cfg uf st order ≤ roundExempt cfg uf st order ∧
+    roundEx (exWl cfg uf wl k) cfg uf st order ≤ roundExempt cfg uf st order := by
+  refine ⟨roundEx_le _ cfg uf ?_ order st, roundEx_le _ cfg uf ?_ order st, roundEx_le _ cfg uf ?_ order st⟩
+  · intro s j h; simp only [exNode, Bool.and_eq_true] at h; exact h.1
+  · intro s j h; simp only [exNs, Bool.and_eq_true] at h; exact h.1
+  · intro s j h; simp only [exWl, Bool.and_eq_true] at h; exact h.1
+
+-- non-vacuity: an annotated pod of namespace 2 is admitted beyond every limit; namespace 1 (limit 1, one job running)
+-- is charged nothing for it, so its waiting job stays out: the per-dimension bound is 1 ≤ max 1 1 + 0
+example :
+    let cfg : ArbCfg := { maxGlobal := -1, maxNode := -1, maxNs := 1, maxMigr := -1, maxUnav := -1, replicas := [(1, 8)] }
+    let st : ArbSt := { pods := [⟨1, 1, 1, 1, true, false, false, 0⟩, ⟨2, 2, 1, 1, true, false, false, 0⟩,
+                                 ⟨3, 3, 2, 1, true, true, false, 0⟩],
+                        jobs := [⟨1, 1, 1, 2, true, 1⟩, ⟨2, 2, 1, 0, false, 2⟩, ⟨3, 3, 2, 0, false, 3⟩], waiting := [2, 3] }
+    WF st ∧ roundExempt cfg [] st [3, 2] = 1 ∧ roundEx (exNs cfg [] 1) cfg [] st [3, 2] = 0 ∧
+      roundEx (exNs cfg [] 2) cfg [] st [3, 2] = 1 ∧ cntNs (round cfg [] st [3, 2]) 1 = 1 ∧
+      cntNs (round cfg [] st [3, 2]) 2 = 1 := by decide
 
 /-! ### Part 3 — one descheduling cycle (deschedulerOnce) -/
 
